@@ -8,6 +8,7 @@
 #include <parmcb/config.hpp>
 #include <parmcb/detail/dijkstra.hpp>
 #include <parmcb/detail/bfs.hpp>
+#include <parmcb/detail/verif.hpp>
 
 #include <functional>
 #include <numeric>
@@ -122,6 +123,7 @@ private:
             weight += boost::get(_weight_map, e);
 
             // output
+            PARMCB_VERIF_PROBE(approx_non_spanner_cycle);
             *out++ = cycle_edgelist;
             total_weight += weight;
         }
@@ -289,6 +291,21 @@ public:
 
         return _weight;
     }
+
+#ifdef PARMCB_VERIF
+    // read-only observation points for the verification harness
+    const Graph& verif_spanner() const {
+        return _spanner;
+    }
+
+    const std::map<Edge, Edge>& verif_edge_spanner_to_g() const {
+        return _edge_spanner_to_g;
+    }
+
+    const std::vector<Edge>& verif_non_spanner_edges() const {
+        return _non_spanner_edges;
+    }
+#endif
 
 private:
     // graph
